@@ -8,6 +8,8 @@ From Coq.Strings Require Import Byte.
 Import ListNotations.
 From OV Require Import Model.Value Model.XPathFrag Model.Decl Model.Eval Proofs.PipelineC02 Gen.DeclHash.
 From OV Require Model.Json Proofs.Json Proofs.PipelineCanonJson Proofs.PipelineCanonXml.
+From OV Require Import Proofs.PipelineOrder Gen.ChildrenOrder.
+From Coq Require Import Permutation Sorting.Sorted.
 From OV Require Import Base.Bytes Base.Tree Model.Pipeline Proofs.Pipeline Proofs.PipelineInst Proofs.PipelineCanon.
 
 Section C15.
@@ -114,6 +116,34 @@ Section C15_C02.
     = run_env_c02 h' s ctx us.
   Proof. exact (run_deterministic_c02 query ext fsigs fcall pcall query_valid marshal marshal_err_cont H canon). Qed.
 End C15_C02.
+
+(* ---- determinism across schema loads: the validated tree is a function of the schema bytes ------- *)
+(* validate.go validateObject appends an object's children in Go map iteration order - ANY
+   permutation of the child set, varying from load to load - and sorts them with `<` on a key.
+   sort.Slice is modelled by its contract (a permutation of the input, ordered by the key).  For
+   every total comparison `<` on keys (any two keys are comparable or equal) and every two iteration orders l, l' of the same children:
+   if the keys are pairwise distinct the two sorted lists are EQUAL, so the children order (= the
+   evaluation order of parseObject, which decides which of several failing fields is reported)
+   does not depend on the load.  The key the code uses is re-extracted from the source on every
+   run (Gen/ChildrenOrder.v): it is the full fqdn, unique among the children of one object. *)
+Theorem children_order_deterministic :
+  children_sorted_by_full_fqdn = true /\
+  forall (A K : Type) (key : A -> K) (lt : K -> K -> Prop),
+    (forall x y, lt x y \/ x = y \/ lt y x) ->
+    forall l l' s s',
+      NoDup (map key l) -> Permutation l l' ->
+      is_sort_of A K key lt l s -> is_sort_of A K key lt l' s' -> s = s'.
+Proof.
+  exact (conj (eq_refl true) sort_order_deterministic).
+Qed.
+
+(* with a key that is not injective on the children (the text after the last '.': C15-r42) the
+   order is NOT determined *)
+Theorem children_order_refuted :
+  exists (l l' s s' : list (nat * nat)),
+    Permutation l l' /\
+    is_sort_of (nat * nat) nat snd nat_lt l s /\ is_sort_of (nat * nat) nat snd nat_lt l' s' /\ s <> s'.
+Proof. exact sort_order_refuted. Qed.
 
 (* ---- checksum canon (Model/Pipeline.v j2 transcribes idr/marshal2.go J2NodeToInterface) ------- *)
 (* Flat formats (csv, csv2 / fixedlength2 / fixed-length columns, EDI elements): a record is an
